@@ -513,3 +513,12 @@ def comp_filter_condition():
 
 def comp_filter_count():
     raise NotImplementedError("comp_filter_count() is a symbolic-only builtin")
+
+
+def call_result(name, nth=None):
+    """ghost trace: what the single recorded call of that function under contract returned (engine builtin)"""
+    raise NotImplementedError
+
+
+def called_before(a, b):
+    raise NotImplementedError("called_before() is a symbolic-only builtin")
